@@ -251,7 +251,48 @@ def double_vote(repo, seed):
     return sim, v, None
 
 
-SCENARIOS = [("figure8", figure8), ("longer_older_log", longer_older_log), ("even_split", even_split),
+def stale_tail_snapshot(repo, seed):
+    """A node rejoins with an uncommitted CONFLICTING tail that reaches beyond the leader's snapshot position
+    while the leader has compacted its log: the snapshot must be installed (the own entry at the snapshot's
+    last index has another term), not skipped."""
+    sim = Sim(repo, ["a", "b", "c"], seed=seed,
+              conf={"raftMinTimeout": 0.5, "raftMaxTimeout": 0.5625, "leaderFallbackTimeout": 1.0,
+                    "logCompactionBatchSize": 64})
+    watch = _watchers(sim)
+    sim.connect_all()
+    if not _elect(sim, "a", ["a", "b", "c"]):
+        return sim, [], "a not elected"
+    _among(sim, ["a", "b", "c"], 4, tickers=["a"])
+    _isolate(sim, "a")
+    for k in range(8):
+        sim.submit("a", "S%d" % k)
+    sim.tick("a", 0.0625)
+    if not _elect(sim, "b", ["b", "c"]):
+        return sim, [], "b not elected"
+    for k in range(5):
+        sim.submit("b", "G%d" % k)
+    _among(sim, ["b", "c"], 8)
+    watch.step()
+    sim.compact("b")
+    _among(sim, ["b", "c"], 4)
+    for _ in range(24):
+        sim.tick("a", 0.0625)                # a steps down
+    base_b = sim.log_of("b")[0][0]
+    if base_b <= 2:
+        return sim, [], "leader did not compact"
+    sim.connect("a", "b")
+    for _ in range(40):
+        for i in ("a", "b", "c"):
+            sim.tick(i, 0.0625)
+        sim.deliver_all()
+        watch.step()
+    sim.connect("a", "c")
+    _among(sim, ["a", "b", "c"], 10)
+    v = _finish(sim, watch) + monitors.sm_state(sim)
+    return sim, v, None
+
+
+SCENARIOS = [("stale_tail_snapshot", stale_tail_snapshot), ("figure8", figure8), ("longer_older_log", longer_older_log), ("even_split", even_split),
              ("double_vote", double_vote)]
 
 
